@@ -56,6 +56,7 @@ def run(rep: Report, tier: str) -> None:
 	rule_initializer_conversion(rep, pm)
 	rule_fill_list_roles(rep, pm)
 	rule_string_requoted(rep, idx, pm, tm)
+	rule_declaration_merge(rep, idx)
 
 
 # ---- (a) precedence ---------------------------------------------------------------------------------------------------
@@ -796,3 +797,22 @@ def rule_string_requoted(rep: Report, idx: SourceIndex, pm: Py2CppModel, tm: Tem
 		r.ok('literal/string', (tm.relpath('literal/string'), 1), message='the template tests the original delimiter')
 	else:
 		r.skip('literal/string', (tm.relpath('literal/string'), 1), 'literal/string.j2 no longer pastes a slice of the handed value between double quotes')
+
+
+def rule_declaration_merge(rep: Report, idx: SourceIndex) -> None:
+	"""Whether `t = v` in a nested block is emitted `int t = v;` (a new C++ variable that shadows the outer one) or `t = v;` is decided by
+	VarsCollector._merged: the statement declares only if NO collected declaration of the same name lives in an enclosing scope. The obligations are
+	C08/declaration-merge-searches-all's (the search ranges over every collected declaration and stops early only on a positive scope comparison);
+	a slip there compiles and returns the stale outer value."""
+	from checks import c08
+	r = rep.rule('C01/assignment-declares-only-when-no-enclosing-declaration', 'VarsCollector._merged compares an added variable with every collected declaration of the same name and stops the search only on a positive scope comparison (obligations shared with C08/declaration-merge-searches-all)', floor=2)
+	scratch = Report('C08', rep.tier)
+	c08.rule_merge(scratch, idx)
+	for rule in scratch.rules:
+		for o in rule.obligations:
+			if o.status == 'violated':
+				r.violate(o.key, (o.file, o.line), o.message, o.fragment)
+			elif o.message.startswith('NOT EVALUATED'):
+				r.skip(o.key, (o.file, o.line), o.message)
+			else:
+				r.ok(o.key, (o.file, o.line))
